@@ -926,6 +926,9 @@ pub fn real_mem() -> Mem {
 }
 
 pub fn fail(sig: &str, msg: String) {
+    if std::env::var("VERIF_DEBUG").is_ok() {
+        eprintln!("FAIL {sig}: {msg}");
+    }
     ctx(|c| {
         if c.failures.len() < 8 {
             c.failures.push((sig.to_string(), msg));
